@@ -446,8 +446,8 @@ impl Property for C31 {
 
     fn runs(&self, tier: Tier) -> u64 {
         match tier {
-            Tier::Quick => 16 * 40,
-            Tier::Thorough => 16 * 4000,
+            Tier::Quick => 16 * 60,
+            Tier::Thorough => 16 * 8000,
         }
     }
 
